@@ -80,7 +80,74 @@ class Repo:
 
     def parse(self, fn):
         p = os.path.join(self.pkg, fn)
-        return ast.parse(open(p).read(), filename=p)
+        cache = self.__dict__.setdefault('_parsed', {})
+        if p not in cache:
+            cache[p] = ast.parse(open(p).read(), filename=p)
+        return cache[p]
+
+    # ---- module-level helper functions (called with the connection object / a request) ----
+    @staticmethod
+    def top_bindings(mod, name):
+        """the top-level statements of the module that bind `name`"""
+        out = []
+        for n in mod.body:
+            if isinstance(n, (ast.FunctionDef, ast.AsyncFunctionDef, ast.ClassDef)) and n.name == name:
+                out.append(n)
+            elif isinstance(n, (ast.Import, ast.ImportFrom)):
+                if any((a.asname or a.name.split('.')[0]) == name for a in n.names):
+                    out.append(n)
+            elif isinstance(n, (ast.Assign, ast.AugAssign, ast.AnnAssign)):
+                tg = n.targets if isinstance(n, ast.Assign) else [n.target]
+                if any(isinstance(x, ast.Name) and x.id == name for t in tg for x in ast.walk(t)):
+                    out.append(n)
+            elif not isinstance(n, ast.Expr):
+                # a binding hidden in a compound statement (if / try / for / with at module level)
+                if any(isinstance(x, ast.Name) and x.id == name and isinstance(x.ctx, ast.Store) for x in ast.walk(n)) or \
+                        any(isinstance(x, (ast.FunctionDef, ast.ClassDef)) and x.name == name for x in ast.walk(n)):
+                    out.append(n)
+        return out
+
+    def module_function(self, mod, name, depth=0):
+        """(FunctionDef, module ast) of the plain function that `name` denotes at the top level of `mod`: defined there
+        exactly once, or imported from a sibling module by `from .x import name`; None when it is anything else"""
+        b = self.top_bindings(mod, name)
+        if len(b) != 1:
+            return None
+        b = b[0]
+        if isinstance(b, ast.FunctionDef):
+            return (b, mod) if not b.decorator_list else None
+        if isinstance(b, ast.ImportFrom) and b.level == 1 and b.module and depth < 3:
+            al = [a for a in b.names if (a.asname or a.name) == name]
+            fn = b.module.replace('.', '/') + '.py'
+            if len(al) == 1 and os.path.exists(os.path.join(self.pkg, fn)):
+                return self.module_function(self.parse(fn), al[0].name, depth + 1)
+        return None
+
+    def class_function(self, mod, cname, meth):
+        """(FunctionDef, module ast, kind) of `Cls.meth` for a class defined once at the top level of `mod` (or imported
+        from a sibling module): kind = 'static' | 'class'; None for anything else"""
+        b = self.top_bindings(mod, cname)
+        if len(b) != 1:
+            return None
+        b = b[0]
+        if isinstance(b, ast.ImportFrom) and b.level == 1 and b.module:
+            al = [a for a in b.names if (a.asname or a.name) == cname]
+            fn = b.module.replace('.', '/') + '.py'
+            if len(al) == 1 and os.path.exists(os.path.join(self.pkg, fn)):
+                return self.class_function(self.parse(fn), al[0].name, meth)
+            return None
+        if not isinstance(b, ast.ClassDef):
+            return None
+        hits = [n for n in b.body if isinstance(n, (ast.FunctionDef, ast.AsyncFunctionDef)) and n.name == meth]
+        others = [n for n in ast.walk(b) if isinstance(n, ast.Name) and n.id == meth and isinstance(n.ctx, ast.Store)]
+        if len(hits) != 1 or others or not isinstance(hits[0], ast.FunctionDef):
+            return None
+        decs = [ast.unparse(d) for d in hits[0].decorator_list]
+        if decs == ['staticmethod']:
+            return hits[0], mod, 'static'
+        if decs == ['classmethod']:
+            return hits[0], mod, 'class'
+        return None
 
     # ---- are the check functions what they are taken to be? ----
     def check_fn_ok(self, name):
@@ -144,15 +211,31 @@ CATCHES_CC = {'CompletionCodeError', 'Exception', 'BaseException'}
 
 
 class Shape:
-    """walk one method body in execution order and emit steps"""
+    """walk one method body in execution order and emit steps.
 
-    def __init__(self, repo, clsname, fn, mod, chk_ok):
+    A call that hands the connection object (`self`) to a module-level function or to a static / class method of a
+    class of the package is INLINED: the callee's body is walked in the caller's context with the parameter that
+    received `self` in the role of `self`, request variables and constant message names flowing from the arguments.
+    `self` (or `self.interface`) escaping in any other way - passed to something that cannot be resolved, stored,
+    returned, aliased - is `Untranslated` (fail closed: the operation is downgraded in this run), never skipped."""
+
+    MAX_DEPTH = 6
+
+    def __init__(self, repo, clsname, fn, mod, chk_ok, selfname='self', parent=None):
         self.R, self.clsname, self.fn, self.mod, self.chk_ok = repo, clsname, fn, mod, chk_ok
-        self.steps = []
+        self.selfname = selfname
+        self.steps = [] if parent is None else parent.steps
+        self.stack = [fn] if parent is None else parent.stack + [fn]
         self.reqvar = {}        # local name -> message name | ('param',)
-        self.params = [a.arg for a in fn.args.args + fn.args.kwonlyargs]
-        self.cond_exit = False  # a conditional return/raise-free exit was seen: later steps are conditional
+        self.strconst = {}      # parameter of an inlined helper -> the string constant it was called with
+        self.params = [a.arg for a in fn.args.args + fn.args.kwonlyargs] if parent is None else []
+        self.cond_exit = False if parent is None else parent.cond_exit
+        # a conditional return/raise-free exit was seen: later steps are conditional
         self.is_gen = any(isinstance(n, (ast.Yield, ast.YieldFrom)) for n in ast.walk(fn))
+        self.parent = {}
+        self.tail = (None, None, None)   # inlined helper: (bind, nxt, module) of the call site, for `return <exchange>` in tail position
+        self.chkmod = None         # module whose imports decide what the check function of a tail exchange is
+        self.returns = []          # inlined helper: message names of the request variables it returns (None = other)
 
     def ctx(self, c):
         t, l, b = c
@@ -160,6 +243,18 @@ class Shape:
 
     def emit(self, s):
         self.steps.append(s)
+
+    def msg_name(self, n):
+        """the message name denoted by an expression: a string literal, or a helper parameter bound to one"""
+        if isinstance(n, ast.Constant) and isinstance(n.value, str):
+            return n.value
+        if isinstance(n, ast.Name) and n.id in self.strconst and not self.rebound(n.id):
+            return self.strconst[n.id]
+        return None
+
+    def rebound(self, name):
+        return any(isinstance(n, ast.Name) and n.id == name and isinstance(n.ctx, (ast.Store, ast.Del))
+                   for n in ast.walk(self.fn))
 
     # -- expressions: exchanges in source order --
     def expr(self, e, c, bind=None, nxt=None):
@@ -172,16 +267,20 @@ class Shape:
                 inner = [n for n in ast.walk(node) if self.is_self_attr(n)]
                 if any(a.attr in self.R.methods or a.attr == 'interface' for a in inner):
                     self.emit('Other %s' % q('self call inside a lambda/comprehension'))
+                elif any(self.is_self_name(n) and not self.is_attr_base(n, node) for n in ast.walk(node)):
+                    self.emit('Untranslated %s' % q('the connection object is used as a value inside a lambda/comprehension'))
                 continue
             if isinstance(node, ast.Call):
                 f = node.func
+                top = node is e
                 if self.is_self_attr(f):
                     name = f.attr
                     if name == 'send_message' and 'send_message' in self.R.methods:
-                        self.exchange(node, c, bind if node is e else None, nxt if node is e else None)
+                        self.exchange(node, c, bind if top else None, nxt if top else None)
                     elif name == 'send_message_with_name' and name in self.R.methods:
-                        if node.args and isinstance(node.args[0], ast.Constant) and isinstance(node.args[0].value, str):
-                            self.emit('CallName %s %s' % (q(node.args[0].value), self.ctx(c)))
+                        mn = self.msg_name(node.args[0]) if node.args else None
+                        if mn is not None:
+                            self.emit('CallName %s %s' % (q(mn), self.ctx(c)))
                         else:
                             self.emit('Untranslated %s' % q('send_message_with_name: message name is not a string literal'))
                     elif name in self.R.methods:
@@ -191,12 +290,19 @@ class Shape:
                 elif (isinstance(f, ast.Attribute) and self.is_self_attr(f.value) and f.value.attr == 'interface'
                       and f.attr in ('send_and_receive', 'send_and_receive_raw')):
                     self.emit('Xfer %s' % self.ctx(c))
+                elif self.passes_self(node):
+                    self.inline(node, c, bind if top else None, nxt if top else None)
             elif self.is_self_attr(node) and isinstance(node.ctx, ast.Load):
                 par = self.parent.get(id(node))
                 if isinstance(par, ast.Call) and par.func is node:
                     continue
-                if isinstance(par, ast.Attribute) and node.attr == 'interface':
-                    continue
+                if node.attr == 'interface':
+                    if isinstance(par, ast.Attribute):
+                        continue
+                    if node.attr in self.R.attrs or node.attr in self.R.methods:
+                        # the transport object handed to something else: its exchanges cannot be seen from here
+                        self.emit('Untranslated %s' % q('%s.interface is used as a value' % self.selfname))
+                        continue
                 if node.attr in self.R.methods:
                     m = self.R.methods[node.attr][1]
                     if any(ast.unparse(d) == 'property' for d in m.decorator_list):
@@ -204,10 +310,18 @@ class Shape:
                     self.emit('Other %s' % q('method reference self.%s passed as a value' % node.attr))
                 elif node.attr not in self.R.attrs:
                     self.emit('Untranslated %s' % q('no such attribute %s' % node.attr))
+            elif self.is_self_name(node) and isinstance(node.ctx, ast.Load):
+                par = self.parent.get(id(node))
+                if isinstance(par, ast.Attribute) and par.value is node:
+                    continue
+                if isinstance(par, ast.Call) and par.func is not node and self.passes_self(par) \
+                        and not self.is_self_attr(par.func):
+                    continue        # handled at the call (inlined or refused there)
+                self.emit('Untranslated %s' % q('the connection object is used as a value (%s)'
+                                                % ast.unparse(par if par is not None else node)[:60]))
 
     def ordered(self, e):
         """nodes of e in evaluation (post-)order for calls: arguments before the call itself"""
-        self.parent = getattr(self, 'parent', {})
         out = []
 
         def rec(n):
@@ -221,9 +335,18 @@ class Shape:
         rec(e)
         return out
 
+    def is_self_attr(self, n):
+        return isinstance(n, ast.Attribute) and isinstance(n.value, ast.Name) and n.value.id == self.selfname
+
+    def is_self_name(self, n):
+        return isinstance(n, ast.Name) and n.id == self.selfname
+
     @staticmethod
-    def is_self_attr(n):
-        return isinstance(n, ast.Attribute) and isinstance(n.value, ast.Name) and n.value.id == 'self'
+    def is_attr_base(n, root):
+        return any(isinstance(p, ast.Attribute) and p.value is n for p in ast.walk(root))
+
+    def passes_self(self, call):
+        return any(self.is_self_name(a) for a in call.args) or any(self.is_self_name(k.value) for k in call.keywords)
 
     @staticmethod
     def created_name(n):
@@ -233,8 +356,127 @@ class Shape:
             return n.args[0].value
         return None
 
+    def made_by(self, n):
+        """message name of a request created in place: create_request_by_name(<literal or constant parameter>), or a
+        module-level helper that returns a request it created"""
+        if isinstance(n, ast.Call) and isinstance(n.func, ast.Name) and n.func.id == 'create_request_by_name' and n.args:
+            return self.msg_name(n.args[0])
+        if isinstance(n, ast.Call):
+            return self.returned_request(n)
+        return None
+
+    # -- calls of module-level helpers --
+    def resolve_callee(self, call):
+        """-> (FunctionDef, module ast, number of leading parameters bound implicitly) or a refusal text"""
+        f = call.func
+        if isinstance(f, ast.Name):
+            if any(isinstance(n, ast.Name) and n.id == f.id and isinstance(n.ctx, (ast.Store, ast.Del))
+                   for n in ast.walk(self.fn)) or f.id in [a.arg for a in self.fn.args.args + self.fn.args.kwonlyargs]:
+                return 'a local name'
+            hit = self.R.module_function(self.mod, f.id)
+            if hit is None:
+                return 'not a plain function defined once in the package'
+            return hit[0], hit[1], 0
+        if isinstance(f, ast.Attribute) and isinstance(f.value, ast.Name) and f.value.id != self.selfname:
+            hit = self.R.class_function(self.mod, f.value.id, f.attr)
+            if hit is None:
+                return 'not a static or class method of a class defined once in the package'
+            return hit[0], hit[1], (1 if hit[2] == 'class' else 0)
+        return 'not a plain function defined once in the package'
+
+    def bind_call(self, h, skip, call):
+        """parameter name -> argument node (defaults included); None when the call does not fit"""
+        a = h.args
+        if a.vararg or a.kwarg or a.kwonlyargs or getattr(a, 'posonlyargs', None):
+            return None
+        if any(isinstance(x, ast.Starred) for x in call.args) or any(k.arg is None for k in call.keywords):
+            return None
+        ps = [p.arg for p in a.args][skip:]
+        if len(call.args) > len(ps):
+            return None
+        given = dict(zip(ps, call.args))
+        for k in call.keywords:
+            if k.arg not in ps or k.arg in given:
+                return None
+            given[k.arg] = k.value
+        dflt = dict(zip(reversed(ps), reversed(a.defaults)))
+        for p_ in ps:
+            if p_ not in given:
+                if p_ not in dflt:
+                    return None
+                given[p_] = dflt[p_]
+        return given
+
+    def sub_shape(self, h, hmod, given, selfparam, share):
+        sub = Shape(self.R, self.clsname, h, hmod, self.chk_ok, selfname=selfparam or '<none>',
+                    parent=self if share else None)
+        if not share:
+            sub.stack = self.stack + [h]
+            sub.params = []
+        for p_, arg in given.items():
+            mn = self.msg_name(arg)
+            if mn is not None:
+                sub.strconst[p_] = mn
+            made = self.made_by(arg)
+            if made is not None:
+                sub.reqvar[p_] = made
+            elif isinstance(arg, ast.Name) and arg.id in self.reqvar and not sub.rebound(p_):
+                sub.reqvar[p_] = self.reqvar[arg.id]
+        return sub
+
+    def inline(self, call, c, bind, nxt):
+        hit = self.resolve_callee(call)
+        what = ast.unparse(call.func)[:60]
+        if isinstance(hit, str):
+            self.emit('Untranslated %s' % q('the connection object is passed to %s: %s' % (what, hit)))
+            return
+        h, hmod, skip = hit
+        given = self.bind_call(h, skip, call)
+        selfps = [p_ for p_, a in (given or {}).items() if self.is_self_name(a)]
+        why = None
+        if given is None:
+            why = 'arguments do not fit its parameters'
+        elif len(selfps) != 1:
+            why = 'more than one parameter receives it'
+        elif any(isinstance(n, (ast.Yield, ast.YieldFrom)) for n in ast.walk(h)):
+            why = 'a generator'
+        elif h in self.stack or len(self.stack) > self.MAX_DEPTH:
+            why = 'recursive or too deeply nested'
+        elif any(isinstance(n, ast.Name) and n.id == selfps[0] and isinstance(n.ctx, (ast.Store, ast.Del)) for n in ast.walk(h)):
+            why = 'the parameter that receives it is rebound'
+        elif any(isinstance(n, (ast.Global, ast.Nonlocal)) for n in ast.walk(h)):
+            why = 'global / nonlocal state'
+        if why is not None:
+            self.emit('Untranslated %s' % q('the connection object is passed to %s: %s' % (what, why)))
+            return
+        sub = self.sub_shape(h, hmod, given, selfps[0], share=True)
+        sub.tail = (bind, nxt, self.chkmod if self.chkmod is not None else self.mod)
+        sub.block(h.body, c)
+        # (a conditional return inside the helper ends the helper, not the caller: cond_exit is not propagated)
+
+    def returned_request(self, call):
+        """message name of the request object that a call of a module-level helper (not given the connection object)
+        returns: every `return` of the helper returns a request variable of one known message; else None"""
+        if self.passes_self(call) or len(self.stack) > self.MAX_DEPTH:
+            return None
+        hit = self.resolve_callee(call) if isinstance(call.func, (ast.Name, ast.Attribute)) else None
+        if hit is None or isinstance(hit, str):
+            return None
+        h, hmod, skip = hit
+        if h in self.stack or any(isinstance(n, (ast.Yield, ast.YieldFrom, ast.Global, ast.Nonlocal)) for n in ast.walk(h)):
+            return None
+        given = self.bind_call(h, skip, call)
+        if given is None:
+            return None
+        sub = self.sub_shape(h, hmod, given, None, share=False)
+        sub.block(h.body, (False, False, False))
+        if sub.steps or not sub.returns or None in sub.returns or len(set(sub.returns)) != 1:
+            return None
+        r = sub.returns[0]
+        return r if isinstance(r, str) else None
+
     def exchange(self, call, c, bind, nxt):
-        direct = self.created_name(call.args[0]) if call.args else None
+        direct = self.made_by(call.args[0]) if call.args else None
         if direct is None and (len(call.args) < 1 or not isinstance(call.args[0], ast.Name)):
             self.emit('Untranslated %s' % q('send_message: request is not a local variable'))
             return
@@ -242,14 +484,15 @@ class Shape:
         chk = 'ChkNone'
         if bind is not None and nxt is not None and isinstance(nxt, ast.Expr) and isinstance(nxt.value, ast.Call):
             k = nxt.value
+            mod = self.chkmod if self.chkmod is not None else self.mod
             if isinstance(k.func, ast.Name) and len(k.args) == 1 and not k.keywords:
                 if (k.func.id == 'check_completion_code' and ast.unparse(k.args[0]) == bind + '.completion_code'
                         and self.chk_ok.get('check_completion_code')
-                        and self.R.imports_from_utils(self.mod, 'check_completion_code')):
+                        and self.R.imports_from_utils(mod, 'check_completion_code')):
                     chk = 'ChkCC'
                 elif (k.func.id == 'check_rsp_completion_code' and ast.unparse(k.args[0]) == bind
                       and self.chk_ok.get('check_rsp_completion_code')
-                      and self.R.imports_from_utils(self.mod, 'check_rsp_completion_code')):
+                      and self.R.imports_from_utils(mod, 'check_rsp_completion_code')):
                     chk = 'ChkRsp'
         if rv is None:
             self.emit('Untranslated %s' % q('send_message: request variable %s of unknown message' % call.args[0].id))
@@ -291,8 +534,9 @@ class Shape:
                 x = s.targets[0].id
                 v = s.value
                 if isinstance(v, ast.Call) and isinstance(v.func, ast.Name) and v.func.id == 'create_request_by_name':
-                    if v.args and isinstance(v.args[0], ast.Constant) and isinstance(v.args[0].value, str):
-                        self.reqvar[x] = v.args[0].value
+                    mn = self.msg_name(v.args[0]) if v.args else None
+                    if mn is not None:
+                        self.reqvar[x] = mn
                     elif v.args and isinstance(v.args[0], ast.Name) and v.args[0].id in self.params:
                         self.reqvar[x] = ('param',)
                     else:
@@ -300,10 +544,14 @@ class Shape:
                     return
                 made = [self.created_name(a) for a in v.args] if isinstance(v, ast.Call) else []
                 made = [m for m in made if m is not None]
+                ret = self.returned_request(v) if isinstance(v, ast.Call) and not self.is_self_attr(v.func) else None
                 if len(made) == 1 and not (isinstance(v.func, ast.Attribute) and self.is_self_attr(v.func)
                                            and v.func.attr == 'send_message'):
                     # req = led.to_request(create_request_by_name('X')): the request object passes through
                     self.reqvar[x] = made[0]
+                elif ret is not None:
+                    # req = _new_request('X', ...): a module-level helper that returns the request it created
+                    self.reqvar[x] = ret
                 elif x in self.reqvar:
                     # req = led.to_request(req): the same request object goes on; anything else forgets it
                     keeps = (isinstance(v, ast.Call) and any(isinstance(a, ast.Name) and a.id == x for a in v.args))
@@ -319,7 +567,17 @@ class Shape:
         elif isinstance(s, ast.Expr):
             self.expr(s.value, c)
         elif isinstance(s, ast.Return):
-            self.expr(s.value, c)
+            v = s.value
+            self.returns.append(self.reqvar.get(v.id) if isinstance(v, ast.Name) else
+                                (self.made_by(v) if isinstance(v, ast.Call) and len(self.stack) > 1 else None))
+            tb, tn, tm = self.tail
+            if tb is not None and self.fn.body and s is self.fn.body[-1]:
+                # inlined helper ending in `return <exchange>`: the caller's next statement may check the code
+                self.chkmod = tm
+                self.expr(v, c, bind=tb, nxt=tn)
+                self.chkmod = None
+            else:
+                self.expr(v, c)
             if b or l or t:
                 self.cond_exit = True
         elif isinstance(s, ast.Raise):
@@ -359,7 +617,7 @@ class Shape:
         elif isinstance(s, ast.Delete):
             pass
         elif isinstance(s, (ast.FunctionDef, ast.AsyncFunctionDef, ast.ClassDef)):
-            inner = [n for n in ast.walk(s) if self.is_self_attr(n)]
+            inner = [n for n in ast.walk(s) if self.is_self_attr(n) or self.is_self_name(n)]
             if inner:
                 self.emit('Untranslated %s' % q('nested definition uses self'))
         else:
